@@ -543,6 +543,125 @@ def cases_for(rng: random.Random, tok, count, members, full=False):
     return out
 
 
+# --------------------------------------------------------------------------------------
+# ranks with large criteria: leaves the small lattice on purpose.  get_rank only COMPARES the
+# criteria (numpy.where(condition, criteria, inf) -> float64, then argsort), and int32, int64
+# with |v| <= 2**53 and integer-valued float64 convert to float64 exactly; float32 inputs are
+# generated among the integers float32 represents.  So every comparison is exact, the model's
+# Int criteria are the array's values, and the oracle (number of members of the group satisfying
+# the condition with a strictly smaller criterion) is binding.
+
+BIG_DTYPES = ("int32", "int64", "float64", "float32")
+_BIG_BASES = {
+    # adjacent integers above 2**24: dates coded YYYYMMDD, amounts in cents, powers of two, extremes
+    "int32": [2 ** 24, 2 ** 24 + 1, 20160101, 19991230, 2_000_000_000, 2 ** 31 - 6, 2 ** 30, 33554432, 123456789],
+    "int64": [2 ** 24, 20160101, 2_000_000_000, 2 ** 31 - 2, 2 ** 32, 2 ** 40 + 1, 10 ** 15, 2 ** 53 - 6, 2 ** 52],
+    "float64": [2 ** 24, 20160101, 2_000_000_000, 2 ** 31, 2 ** 40, 10 ** 15 + 1, 2 ** 53 - 6, 2 ** 52 - 1],
+}
+
+
+def _f32_exact(v: int) -> bool:
+    import struct
+    try:
+        return struct.unpack("f", struct.pack("f", float(v)))[0] == v
+    except OverflowError:
+        return False
+
+
+def big_criteria(rng: random.Random, dtype: str, members, larger_first: bool):
+    """distinct integer criteria, per group a cluster of neighbours above 2**24 (adjacent integers
+    for int32/int64/float64; adjacent float32 values for float32), negative clusters, and a few small
+    values mixed in; within each group the larger values are stored first when `larger_first`."""
+    by_group: dict = {}
+    for i, (g, _) in enumerate(members):
+        by_group.setdefault(g, []).append(i)
+    crit = [0] * len(members)
+    for g, idx in by_group.items():
+        k = len(idx)
+        sign = -1 if rng.random() < 0.35 else 1
+        if dtype == "float32":
+            e = rng.choice([1, 1, 2, 3, 7, 16, 40])                    # spacing 2**e, |v| in [2**(23+e), 2**(24+e))
+            m0 = rng.randint(2 ** 23, 2 ** 24 - 1 - k)
+            vals = [sign * (m0 + j) * 2 ** e for j in range(k)]        # 1 ulp (float32) apart
+        else:
+            limit = 2 ** 31 - 1 if dtype == "int32" else 2 ** 53
+            base = rng.choice(_BIG_BASES[dtype])
+            step = rng.choice([1, 1, 1, 1, 2, 3])
+            lo = base - rng.randint(0, k) * step
+            if lo <= 2 ** 24 - 1:
+                lo = base
+            lo = min(lo, limit - (k - 1) * step)                       # the cluster may end on the dtype's maximum
+            vals = [sign * (lo + j * step) for j in range(k)]          # adjacent integers
+        # a mixture with small values (exact in every dtype), kept distinct
+        small = set()
+        for j in range(k):
+            if rng.random() < 0.2:
+                v = rng.randint(-50, 50)
+                while v in small:
+                    v += 1
+                small.add(v)
+                vals[j] = v
+        assert len(set(vals)) == k
+        if dtype == "float32":
+            assert all(_f32_exact(v) for v in vals)
+        elif dtype == "int32":
+            assert all(-2 ** 31 <= v < 2 ** 31 for v in vals)
+        else:
+            assert all(abs(v) <= 2 ** 53 for v in vals)
+        if larger_first:
+            vals.sort(reverse=True)
+        else:
+            rng.shuffle(vals)
+        for i, v in zip(idx, vals):
+            crit[i] = v
+    return crit
+
+
+def small_group_population(rng: random.Random):
+    """1..5 groups of 2..5 members (plus, sometimes, a group of one and empty groups), stored
+    contiguously, interleaved or shuffled"""
+    tok = rng.choice(ROLE_TABLES)
+    nflat = G.flat_count(tok)
+    ngroups = rng.choice([1, 2, 2, 3, 4, 5])
+    empty = rng.choice([0, 0, 1, 2])
+    count = ngroups + empty
+    used = sorted(rng.sample(range(count), ngroups))
+    gids = []
+    for g in used:
+        gids += [g] * rng.choice([2, 2, 3, 3, 4, 5, 1])
+    layout = rng.choice(["contiguous", "interleaved", "shuffled"])
+    if layout == "interleaved":
+        pools = {g: gids.count(g) for g in used}
+        gids = []
+        while any(pools.values()):
+            for g in used:
+                if pools[g]:
+                    gids.append(g)
+                    pools[g] -= 1
+    elif layout == "shuffled":
+        rng.shuffle(gids)
+    return tok, count, [(g, rng.randrange(nflat)) for g in gids]
+
+
+def big_rank_cases(rng: random.Random, tok, count, members, dtypes=BIG_DTYPES):
+    """get_rank with large criteria of every dtype, with and without condition"""
+    n = len(members)
+    out = []
+    st = tuple(_shape_tags(count, members))
+    for dtype in dtypes:
+        larger_first = rng.random() < 0.5
+        crit = big_criteria(rng, dtype, members, larger_first)
+        tags = st + ("rank-large", "crit-" + dtype, "larger-first" if larger_first else "any-order")
+        conds = [[True] * n, [rng.random() < 0.7 for _ in range(n)]]
+        for cond in conds:
+            out.append(_case(tok, count, members, "rank", "-", G.fmt_vals("i", crit), G.fmt_vals("b", cond),
+                             tags=tags, dtype=dtype))
+        if rng.random() < 0.25:
+            out.append(_case(tok, count, members, "chain", "-", "g", "fp", "rank", G.fmt_vals("i", crit),
+                             G.fmt_vals("b", conds[1]), tags=tags, dtype=dtype))
+    return out
+
+
 def malformed_for(rng: random.Random, tok, count, members):
     """invalid requests: wrong array sizes, non-Role role arguments, chains that do not resolve,
     group indices outside the simulation"""
@@ -581,6 +700,10 @@ def generate(rng: random.Random, tier: str):
     for k in range(npop):
         tok, count, members = random_population(rng, small=(k % 5 == 0))
         out += cases_for(rng, tok, count, members)
+        if members:
+            out += big_rank_cases(rng, tok, count, members, dtypes=(rng.choice(BIG_DTYPES[:3]),))
+        if k % 4 == 0:
+            out += big_rank_cases(rng, *small_group_population(rng))
         if k % 10 == 0:
             out += malformed_for(rng, tok, count, members)
     return out
@@ -635,6 +758,21 @@ def corpus():
     for count, members in fixtures:
         out += cases_for(rng, tok, count, members, full=True)
     out += malformed_for(rng, tok, 2, fixtures[0][1])
+    # ranks must follow criteria that only differ beyond float32 precision (larger value stored first)
+    pair = [(0, 0), (0, 2)]
+    seven = [(0, 0), (1, 0), (0, 2), (1, 1), (1, 2), (0, 2), (1, 2)]
+    for dtype, crits in (("int32", [[16777217, 16777216], [20160105, 20160104], [2000000001, 2000000000], [-16777216, -16777217]]),
+                         ("int64", [[16777217, 16777216], [9007199254740991, 9007199254740990], [1099511627777, 1099511627776]]),
+                         ("float64", [[16777217, 16777216], [-2000000000, -2000000001], [4503599627370497, 4503599627370496]]),
+                         ("float32", [[16777218, 16777216], [-33554432, -33554436]])):
+        for cr in crits:
+            out.append(_case(tok, 2, pair, "rank", "-", G.fmt_vals("i", cr), "b:TT", tags=("rank-large", "crit-" + dtype), dtype=dtype))
+    out.append(_case(tok, 2, seven, "rank", "-", "i:2000000001,16777217,2000000000,16777216,20160105,1999999999,20160104",
+                     "b:TTTTTTT", tags=("rank-large", "crit-int32"), dtype="int32"))
+    out.append(_case(tok, 2, seven, "rank", "-", "i:2000000001,16777217,2000000000,16777216,20160105,1999999999,20160104",
+                     "b:FFTFTTT", tags=("rank-large", "crit-int32"), dtype="int32"))
+    for k in range(6):
+        out += big_rank_cases(rng, *small_group_population(rng))
     return out
 
 
@@ -650,6 +788,8 @@ def neighbours(case: Case):
         variants.append((count - 1, [(min(g, count - 2), r) for g, r in members]))
     for cnt, ms in variants:
         out += cases_for(rng, tok, cnt, ms)
+        if ms:
+            out += big_rank_cases(rng, tok, cnt, ms)
     return out
 
 
@@ -668,7 +808,16 @@ PROP = Prop(
           "and with two role arguments, value_nth_person at 0/1/last/beyond, first person, value_from_person for unique "
           "and non-unique roles, project with and without role (integer and boolean arrays, dtypes float64/float32/"
           "int64/int32), has_role, get_rank with distinct criteria (binding) and tied criteria (permutation-consistency "
-          "only), 15 projector chains; every 10th population adds a malformed stream (wrong sizes, non-Role roles, "
+          "only), 15 projector chains; the RANK STREAM LEAVES THE SMALL LATTICE ON PURPOSE: on every population one get_rank "
+          "line, and on every 4th a population of 1..5 groups of 2..5 members with get_rank for each criterion dtype the API "
+          "accepts (int32, int64, float64, float32), with and without condition, whose criteria are per-group clusters of "
+          "adjacent integers above 2**24 (dates coded YYYYMMDD, cents around 2e9, 2**24, 2**31-1, 2**40, 10**15, 2**53-6; "
+          "adjacent float32 values m*2**e for float32), negative clusters and mixtures with small values, the larger value "
+          "stored first in half of the cases; this is exact because get_rank only compares the criteria after "
+          "numpy.where(condition, criteria, inf) converts them to float64, which is exact for int32, for int64/float64 "
+          "integers up to 2**53 and for float32 values, so the model's Int criteria are the array's values and the oracle "
+          "(rank = number of members of the group satisfying the condition with a strictly smaller criterion) is binding; "
+          "every 10th population adds a malformed stream (wrong sizes, non-Role roles, "
           "unresolvable chains, group index outside the simulation, zero persons). Non-trivial: >= 2 persons, >= 2 "
           "groups and a value (not an error); distinct = distinct protocol lines."),
     assumptions=[
